@@ -228,6 +228,53 @@ Proof.
 Qed.
 
 
+Theorem perm_invariant_min l l' : Permutation l l' -> min_of l = min_of l'.
+Proof.
+  intro HP. induction HP; cbn [min_of].
+  - reflexivity.
+  - rewrite IHHP. reflexivity.
+  - destruct (min_of l) as [m|]; f_equal; lia.
+  - congruence.
+Qed.
+
+(* sort by (order, name) with pairwise distinct names: a total order that is antisymmetric on the entries *)
+Section SortByOrderName.
+  Variable V : Type.
+  Notation onleb := (@order_name_leb V).
+
+  Lemma onleb_spec a b : onleb a b = true <->
+    fst (fst a) < fst (fst b) \/ (fst (fst a) = fst (fst b) /\ snd (fst a) <= snd (fst b)).
+  Proof.
+    unfold order_name_leb. rewrite orb_true_iff, andb_true_iff, Nat.ltb_lt, Nat.eqb_eq, Nat.leb_le. tauto.
+  Qed.
+
+  Lemma onleb_total x y : onleb x y = true \/ onleb y x = true.
+  Proof. rewrite !onleb_spec. lia. Qed.
+
+  Lemma onleb_trans x y z : onleb x y = true -> onleb y z = true -> onleb x z = true.
+  Proof. rewrite !onleb_spec. lia. Qed.
+
+  Lemma nodup_names_inj (l : list (nat * nat * V)) : NoDup (map (fun e => snd (fst e)) l) ->
+    forall x y, In x l -> In y l -> snd (fst x) = snd (fst y) -> x = y.
+  Proof.
+    induction l as [|a l IH]; intros Hnd x y Hx Hy Hk; [destruct Hx|].
+    cbn [map] in Hnd. inversion Hnd as [|? ? Hnot Hnd']; subst.
+    destruct Hx as [<-|Hx]; destruct Hy as [<-|Hy].
+    - reflexivity.
+    - exfalso. apply Hnot. rewrite Hk. apply (in_map (fun e => snd (fst e))). exact Hy.
+    - exfalso. apply Hnot. rewrite <- Hk. apply (in_map (fun e => snd (fst e))). exact Hx.
+    - apply IH; assumption.
+  Qed.
+
+  Theorem perm_invariant_sort_by_order_name l l' :
+    NoDup (map (fun e => snd (fst e)) l) -> Permutation l l' -> isort _ onleb l = isort _ onleb l'.
+  Proof.
+    intros Hnd HP. apply perm_invariant_sort; [apply onleb_total | apply onleb_trans | | exact HP].
+    intros x y Hx Hy H1 H2. apply (nodup_names_inj l Hnd x y Hx Hy).
+    unfold le in *. rewrite onleb_spec in H1, H2. lia.
+  Qed.
+End SortByOrderName.
+
 (* ---- compositions used by the repaired sites: sort (or take the minimum) first, then do the order-sensitive thing ---- *)
 Lemma perm_filter {A} (p : A -> bool) l l' : Permutation l l' -> Permutation (filter p l) (filter p l').
 Proof.
